@@ -62,6 +62,10 @@ def pool(name):
             v = list(alpha(SIGMA12, 4, 1))
         elif name == 'blocks':
             v = list(BLOCKS)
+        elif name == 'tight':
+            # a one-line block directly followed by a block that may interrupt it: the second block starts on
+            # line 2 of its document (a table under a one-line heading or paragraph, a list under a rule, ...)
+            v = [a + '\n' + b for a in ('# Heading', 'foo', '---', '> quote', 'a | b') for b in BLOCKS]
         else:  # two-block documents
             v = [a + '\n\n' + b for i, a in enumerate(BLOCKS) for j, b in enumerate(BLOCKS) if (i + 2 * j) % 5 == 0]
         _POOLS[name] = v
@@ -158,6 +162,8 @@ def tasks(tier, seed):
         out.append(('blocks', i, 'spec', sorted(rnd.sample(range(n_spec), 100))))
     for i in range(len(pool('two'))):
         out.append(('two', i, 'blocks', list(range(len(BLOCKS)))))
+    for i in range(len(BLOCKS)):
+        out.append(('blocks', i, 'tight', list(range(len(pool('tight'))))))
     return out
 
 
@@ -171,7 +177,7 @@ def run(tier, seed, workers):
     out.update({
         'domain': 'pairs (A,B): spec x spec (%s), spec x %d block specimens, ALPHA(SIGMA12,4) x ALPHA(SIGMA12,4) (%d seeded '
                   'partners per A), specimens x specimens, specimens x 100 seeded spec examples, %d two-block documents x '
-                  'specimens; A with trailing blank lines stripped; only pairs meeting the side conditions are counted; '
+                  'specimens, specimens x 230 tight two-block documents (second block on line 2 of its document); A with trailing blank lines stripped; only pairs meeting the side conditions are counted; '
                   'HtmlRenderer token set' % ('all pairs' if tier == 'thorough' else '200 seeded partners per A', len(BLOCKS),
                                              100 if tier == 'thorough' else 16, len(pool('two'))),
         'rule': 'A enumerated exhaustively over each pool, partners drawn with random.Random(1000003*seed+17); a pair is '
